@@ -99,4 +99,81 @@ theorem holder_stable {u : Tid} (h : InvLock s) (hl : s.lock = some u) (hne : t 
   rw [hl] at hh
   cases htr <;> simp_all
 
+/-- the thread has been through its first `with self._version_lock` in `writer()` (or never will: readers) -/
+def arrivedL (l : Local) : Prop := l.pc ≠ .idle ∧ l.pc ≠ .wInit ∧ ¬ (l.pc = .wAcq ∧ l.ev = none)
+
+structure InvArr (s : State) : Prop where
+  nodup : s.arrivals.Nodup
+  mem : ∀ t, t ∈ s.arrivals → arrivedL (s.loc t)
+
+theorem invArr_init : InvArr init := ⟨by simp [init], by simp [init]⟩
+
+theorem invArr_trans (h : InvArr s) (htr : Trans c s t s') : InvArr s' := by
+  constructor
+  · have hn := h.nodup
+    cases htr <;> simp only [setLoc_arrivals] <;> try exact hn
+    case wAcqFirst hpc _ hev =>
+      refine List.nodup_append.mpr ⟨hn, by simp, ?_⟩
+      intro a ha b hb
+      simp at hb; subst hb
+      intro e; subst e
+      exact (h.mem a ha).2.2 ⟨hpc, hev⟩
+  · intro u
+    have hu := h.mem u
+    have ht := h.mem t
+    unfold arrivedL at *
+    cases htr <;> by_cases hut : u = t <;> simp_all
+
+theorem reach_invArr (h : Reach c n s) : InvArr s := by
+  induction h with
+  | init => exact invArr_init
+  | step t _ _ hs ih => exact invArr_trans ih (step_trans hs)
+
+/-- with `bounded_bypass_aux`: the waiter is admitted in `s'` exactly when `p + 1` writers have been admitted -/
+theorem admitted_iff_position (hr : Reach c n s') {p : Nat} {u : Tid} (hp : s'.arrivals[p]? = some u) :
+    u ∈ s'.admitted ↔ p < s'.admitted.length := by
+  have hq := (reach_inv hr).q.queue
+  have hn := (reach_invArr hr).nodup
+  have hplt : p < s'.arrivals.length := by
+    rcases Nat.lt_or_ge p s'.arrivals.length with h1 | h1
+    · exact h1
+    · rw [List.getElem?_eq_none h1] at hp; cases hp
+  constructor
+  · intro hm
+    obtain ⟨j, hj, hju⟩ := List.getElem_of_mem hm
+    have hj' : j < s'.arrivals.length := by rw [hq, List.length_append]; omega
+    have : s'.arrivals[j]? = some u := by
+      rw [hq, List.getElem?_append_left hj, List.getElem?_eq_getElem hj, hju]
+    have := (List.getElem?_inj hj' hn).mp (this.trans hp.symm)
+    omega
+  · intro hlt
+    have : s'.arrivals[p]? = some s'.admitted[p] := by
+      rw [hq, List.getElem?_append_left hlt, List.getElem?_eq_getElem hlt]
+    rw [this] at hp
+    have := Option.some.inj hp
+    rw [← this]; exact List.getElem_mem _
+
+theorem reachFrom_of_run {c : Cfg} {n : Nat} : ∀ (sched : List Tid) (s s' : State), (∀ t ∈ sched, t < n) →
+    run c s sched = some s' → ReachFrom c n s s' := by
+  intro sched
+  induction sched with
+  | nil => intro s s' _ h; simp [run] at h; subst h; exact .refl
+  | cons t ts ih =>
+    intro s s' hlt h
+    simp only [run] at h
+    cases hs : step c s t with
+    | none => rw [hs] at h; cases h
+    | some s1 =>
+      rw [hs] at h
+      have h1 := ih s1 s' (fun u hu => hlt u (List.mem_cons_of_mem _ hu)) h
+      -- prepend the first step
+      clear ih h
+      induction h1 with
+      | refl => exact .step t .refl (hlt t List.mem_cons_self) hs
+      | step u _ hu hs2 ih2 => exact .step u ih2 hu hs2
+
+theorem reach_of_run {c : Cfg} {n : Nat} (sched : List Tid) (s' : State) (hlt : ∀ t ∈ sched, t < n)
+    (h : run c init sched = some s') : Reach c n s' :=
+  reach_of_reachFrom .init (reachFrom_of_run sched init s' hlt h)
+
 end Model.Writers
